@@ -53,7 +53,58 @@ type caseC17 struct {
 	Outage bool `json:"outage,omitempty"`
 	// IdleMs: the program makes the call, stays idle for this long, and makes the call again (thorough tier: more than two minutes)
 	IdleMs int `json:"idle_ms,omitempty"`
+	// Fork: the program also links a COPY of the package under another import path (a fork, a vendored copy inside a dependency,
+	// a later /v2 next to v1) and calls both: whatever the package registers in process-wide namespaces at init (expvar, flag,
+	// metrics, gob types, hash registrations) must not collide with itself.
+	Fork bool `json:"fork,omitempty"`
 }
+
+// writeFork copies the non-test sources of the tree under test into dir/fork as module example.com/fork/secp256k1.
+func writeFork(dir string) error {
+	src, dst := repoDir(), filepath.Join(dir, "fork")
+	err := filepath.WalkDir(src, func(path string, d os.DirEntry, err error) error {
+		if err != nil {
+			return err
+		}
+		rel, _ := filepath.Rel(src, path)
+		if d.IsDir() {
+			if name := d.Name(); rel != "." && (strings.HasPrefix(name, ".") || name == "tests" || name == "testdata" || name == "vendor") {
+				return filepath.SkipDir
+			}
+			return os.MkdirAll(filepath.Join(dst, rel), 0o755)
+		}
+		if !strings.HasSuffix(path, ".go") || strings.HasSuffix(path, "_test.go") {
+			return nil
+		}
+		raw, rerr := os.ReadFile(path)
+		if rerr != nil {
+			return rerr
+		}
+		raw = bytes.ReplaceAll(raw, []byte(`"github.com/bytemare/secp256k1/`), []byte(`"example.com/fork/secp256k1/`))
+		return os.WriteFile(filepath.Join(dst, rel), raw, 0o644)
+	})
+	if err != nil {
+		return err
+	}
+	return os.WriteFile(filepath.Join(dst, "go.mod"), []byte("module example.com/fork/secp256k1\n\ngo 1.22.2\n"), 0o644)
+}
+
+const forkSrc = `package main
+
+import fork "example.com/fork/secp256k1"
+
+func init() {
+	forkCompute = func(fn string, msg, dst []byte) []byte {
+		switch fn {
+		case "HashToGroup":
+			return fork.HashToGroup(msg, dst).Encode()
+		case "EncodeToGroup":
+			return fork.EncodeToGroup(msg, dst).Encode()
+		}
+		return fork.HashToScalar(msg, dst).Encode()
+	}
+}
+`
 
 var importPool = []string{"fmt", "os", "strings", "encoding/hex", "math/big", "crypto/rand", "crypto/sha512", "crypto/md5", "hash/fnv",
 	"encoding/json", "sort", "time", "crypto/sha256", "crypto/tls", "net/http"}
@@ -182,6 +233,9 @@ func compute() []byte {
 	}
 }
 
+// forkCompute is set by fork.go when the program also links a copy of the package under another import path.
+var forkCompute func(fn string, msg, dst []byte) []byte
+
 var where = %q
 
 // during package initialisation
@@ -223,6 +277,11 @@ func main() {
 	default:
 		out = compute()
 	}
+	if forkCompute != nil {
+		if other := forkCompute(%q, msg, dst); string(other) != string(out) {
+			os.Stdout.WriteString("FORK-DISAGREES\n")
+		}
+	}
 	const digits = "0123456789abcdef"
 	b := make([]byte, 0, 2*len(out))
 	for _, c := range out {
@@ -262,7 +321,7 @@ func runC17(c caseC17, o *gen.Obs) error {
 	o.ClassIf(otherLinks, "sha256-linked-by-others")
 	o.ClassIf(c.Wrap, "registry-replaced")
 	o.ClassIf(c.Rejected > 0, "after-rejected-calls")
-	o.NonTrivialIf(!otherLinks || c.Wrap || c.Rejected > 0 || c.SingleP || c.Arch386 || c.DeadStderr || c.Where != "" || c.Outage || c.IdleMs > 0)
+	o.NonTrivialIf(!otherLinks || c.Wrap || c.Rejected > 0 || c.SingleP || c.Arch386 || c.DeadStderr || c.Where != "" || c.Outage || c.IdleMs > 0 || c.Fork)
 
 	dir, err := os.MkdirTemp("", "verif-c17-")
 	if err != nil {
@@ -279,7 +338,7 @@ func runC17(c caseC17, o *gen.Obs) error {
 	}
 	o.Class("where:" + where)
 	o.ClassIf(c.Outage, "entropy-outage-at-start")
-	src := fmt.Sprintf(mainTemplate, imp.String(), byteList(msg), byteList(dst), c.Fn, c.Outage, c.IdleMs, c.Rejected, c.Fn, where)
+	src := fmt.Sprintf(mainTemplate, imp.String(), byteList(msg), byteList(dst), c.Fn, c.Outage, c.IdleMs, c.Rejected, c.Fn, where, c.Fn)
 	gomod := fmt.Sprintf("module verifprog\n\ngo 1.22.2\n\nrequire github.com/bytemare/secp256k1 v0.0.0\n\nreplace github.com/bytemare/secp256k1 => %s\n", repoDir())
 	if err := os.WriteFile(filepath.Join(dir, "main.go"), []byte(src), 0o644); err != nil {
 		return &gen.Inconclusive{Msg: err.Error()}
@@ -289,6 +348,19 @@ func runC17(c caseC17, o *gen.Obs) error {
 	}
 	if c.Wrap {
 		if err := os.WriteFile(filepath.Join(dir, "wrap.go"), []byte(wrapSrc), 0o644); err != nil {
+			return &gen.Inconclusive{Msg: err.Error()}
+		}
+	}
+	if c.Fork {
+		o.Class("links-a-fork-of-the-package")
+		if err := writeFork(dir); err != nil {
+			return &gen.Inconclusive{Msg: "cannot copy the tree: " + err.Error()}
+		}
+		gomod += "\nrequire example.com/fork/secp256k1 v0.0.0\n\nreplace example.com/fork/secp256k1 => ./fork\n"
+		if err := os.WriteFile(filepath.Join(dir, "go.mod"), []byte(gomod), 0o644); err != nil {
+			return &gen.Inconclusive{Msg: err.Error()}
+		}
+		if err := os.WriteFile(filepath.Join(dir, "fork.go"), []byte(forkSrc), 0o644); err != nil {
 			return &gen.Inconclusive{Msg: err.Error()}
 		}
 	}
@@ -351,6 +423,9 @@ func runC17(c caseC17, o *gen.Obs) error {
 		}
 		return gen.Fail(cls, "a program importing %v plus the package fails in %s: %v\n%s", imports, c.Fn, rerr, tail)
 	}
+	if strings.Contains(all, "FORK-DISAGREES") {
+		return gen.Fail(c.Fn+"/fork-disagrees", "a copy of the package under another import path returns something else than the package in the same program")
+	}
 	line := "RESULT=" + hex.EncodeToString(want)
 	if !strings.Contains(all, line) {
 		return gen.Fail(c.Fn+"/value", "program importing %v printed %q, want %s", imports, strings.TrimSpace(all), line)
@@ -377,6 +452,7 @@ var c17 = gen.Register(&gen.Check[caseC17]{
 		c.DeadStderr = gen.Chance(t, "deadStderr", 1, 4)
 		c.Where = []string{"", "", "init", "goroutine", "locked", "finalizer"}[gen.Pick(t, "where", 6)]
 		c.Outage = gen.Chance(t, "outage", 1, 4)
+		c.Fork = gen.Chance(t, "fork", 1, 5)
 		if gen.Chance(t, "rejected", 1, 3) {
 			c.Rejected = rapid.SampledFrom([]int{1000, 70, 3, 300}).Draw(t, "nrej")
 		}
@@ -410,6 +486,7 @@ var c17 = gen.Register(&gen.Check[caseC17]{
 			{Fn: "HashToGroup", Msg: "616263", Dst: "01", DeadStderr: true}, {Fn: "HashToScalar", Msg: "616263", Dst: dst, DeadStderr: true},
 			{Fn: "EncodeToGroup", Msg: "", Dst: hex.EncodeToString(bytes.Repeat([]byte{'x'}, 300)), DeadStderr: true},
 			{Fn: "HashToGroup", Msg: "616263", Dst: dst, IdleMs: 1200}, {Fn: "HashToScalar", Msg: "616263", Dst: hex.EncodeToString(bytes.Repeat([]byte{'i'}, 300)), IdleMs: idleLong()},
+			{Fn: "HashToGroup", Msg: "616263", Dst: dst, Fork: true}, {Fn: "HashToScalar", Msg: "616263", Dst: hex.EncodeToString(bytes.Repeat([]byte{'f'}, 300)), Fork: true},
 			{Fn: "HashToGroup", Msg: "616263", Dst: dst, Outage: true}, {Fn: "EncodeToGroup", Msg: "616263", Dst: dst, Outage: true}, {Fn: "HashToScalar", Msg: "616263", Dst: dst, Outage: true},
 			{Fn: "HashToGroup", Msg: "616263", Dst: dst, Where: "init"}, {Fn: "HashToScalar", Msg: "616263", Dst: dst, Where: "finalizer"},
 			{Fn: "EncodeToGroup", Msg: "616263", Dst: dst, Where: "locked", SingleP: true}, {Fn: "HashToGroup", Msg: "", Dst: dst, Where: "goroutine"},
